@@ -379,6 +379,10 @@ def validate_tree(t_elem, prods, start):
     todo = [t_elem]
     while todo:
         x = todo.pop()
+        if not hasattr(x, "name") or not hasattr(x, "value"):
+            # (a bare value where an element of the tree has to be)
+            errs.append(("child-is-not-a-tree-element", type(x).__name__, repr(x)[:40]))
+            continue
         name = x.name
         if not isinstance(name, str) or '__' in name or name.startswith('$'):
             errs.append(("helper-symbol-in-tree", str(name)))
